@@ -15,6 +15,7 @@ def escChar (c : Char) : List Char :=
   else if c = '\n' then ['\\', 'n']
   else if c = '\r' then ['\\', 'r']
   else if c = '\t' then ['\\', 't']
+  else if isUnprintableRE c then escapeUnprintable c
   else [c]
 
 theorem escapeString_append (a b : List Char) :
@@ -36,7 +37,9 @@ theorem escapeString_single (c : Char) : escapeString [c] = escChar c := by
   · subst h6; decide
   by_cases h7 : c = '\t'
   · subst h7; decide
-  simp [escapeString, replaceChar, escChar, h1, h2, h3, h4, h5, h6, h7]
+  by_cases h8 : isUnprintableRE c = true
+  · simp [escapeString, replaceChar, escChar, h1, h2, h3, h4, h5, h6, h7, h8]
+  · simp [escapeString, replaceChar, escChar, h1, h2, h3, h4, h5, h6, h7, h8]
 
 theorem escapeString_eq (s : List Char) : escapeString s = s.flatMap escChar := by
   induction s with
@@ -46,27 +49,31 @@ theorem escapeString_eq (s : List Char) : escapeString s = s.flatMap escChar := 
     rw [this, escapeString_append, escapeString_single, ih]
     simp
 
-/-- every `escChar c` is either the character itself (not special) or a
-    two-character escape that the tokenizer decodes back to `c` -/
+/-- every `escChar c` is the character itself (not special, not in the
+    unprintable class), a two-character escape that the tokenizer decodes back
+    to `c`, or the numeric escape of a character of the unprintable class -/
 theorem escChar_cases (c : Char) :
-    (escChar c = [c] ∧ c ≠ '\\' ∧ c ≠ '\'') ∨
-    (∃ d, escChar c = ['\\', d] ∧ d ≠ '(' ∧ ∀ tl, strEscape (d :: tl) = .ok ([c], 1, false)) := by
+    (escChar c = [c] ∧ c ≠ '\\' ∧ c ≠ '\'' ∧ isUnprintableRE c = false) ∨
+    (∃ d, escChar c = ['\\', d] ∧ d ≠ '(' ∧ ∀ tl, strEscape (d :: tl) = .ok ([c], 1, false)) ∨
+    (isUnprintableRE c = true ∧ escChar c = escapeUnprintable c) := by
   by_cases h1 : c = '\\'
-  · subst h1; right; exact ⟨'\\', by decide, by decide, fun tl => by simp [strEscape]⟩
+  · subst h1; right; left; exact ⟨'\\', by decide, by decide, fun tl => by simp [strEscape]⟩
   by_cases h2 : c = '\''
-  · subst h2; right; exact ⟨'\'', by decide, by decide, fun tl => by simp [strEscape]⟩
+  · subst h2; right; left; exact ⟨'\'', by decide, by decide, fun tl => by simp [strEscape]⟩
   by_cases h3 : c = Char.ofNat 8
-  · subst h3; right; exact ⟨'b', by decide, by decide, fun tl => by simp [strEscape]⟩
+  · subst h3; right; left; exact ⟨'b', by decide, by decide, fun tl => by simp [strEscape]⟩
   by_cases h4 : c = Char.ofNat 12
-  · subst h4; right; exact ⟨'f', by decide, by decide, fun tl => by simp [strEscape]⟩
+  · subst h4; right; left; exact ⟨'f', by decide, by decide, fun tl => by simp [strEscape]⟩
   by_cases h5 : c = '\n'
-  · subst h5; right; exact ⟨'n', by decide, by decide, fun tl => by simp [strEscape]⟩
+  · subst h5; right; left; exact ⟨'n', by decide, by decide, fun tl => by simp [strEscape]⟩
   by_cases h6 : c = '\r'
-  · subst h6; right; exact ⟨'r', by decide, by decide, fun tl => by simp [strEscape]⟩
+  · subst h6; right; left; exact ⟨'r', by decide, by decide, fun tl => by simp [strEscape]⟩
   by_cases h7 : c = '\t'
-  · subst h7; right; exact ⟨'t', by decide, by decide, fun tl => by simp [strEscape]⟩
-  left
-  simp [escChar, h1, h2, h3, h4, h5, h6, h7]
+  · subst h7; right; left; exact ⟨'t', by decide, by decide, fun tl => by simp [strEscape]⟩
+  by_cases h8 : isUnprintableRE c = true
+  · right; right; exact ⟨h8, by simp [escChar, h1, h2, h3, h4, h5, h6, h7, h8]⟩
+  · left
+    simp [escChar, h1, h2, h3, h4, h5, h6, h7, h8]
 
 /-- a two-character escape is a complete piece -/
 theorem unqPiece_esc (d c : Char) (h : ∀ tl, strEscape (d :: tl) = .ok ([c], 1, false)) :
@@ -76,16 +83,33 @@ theorem unqPiece_esc (d c : Char) (h : ∀ tl, strEscape (d :: tl) = .ok ([c], 1
     if_true, h tl]
   cases unqStr 0 false tl <;> rfl
 
-theorem unqPiece_escChar (c : Char) : UnqPiece (escChar c) [c] := by
-  rcases escChar_cases c with ⟨h, h1, _⟩ | ⟨d, h, _, h2⟩
+theorem unprintable_lt (c : Char) (h : isUnprintableRE c = true) : c.toNat < 65536 := by
+  simp [isUnprintableRE] at h; omega
+
+theorem not_unprintable_not_bidi (c : Char) (h : isUnprintableRE c = false) : isBidi c = false := by
+  simp [isUnprintableRE] at h
+  simp [isBidi]
+  omega
+
+theorem unqPiece_escChar (c : Char) (h0 : c.toNat ≠ 0) : UnqPiece (escChar c) [c] := by
+  rcases escChar_cases c with ⟨h, h1, _, _⟩ | ⟨d, h, _, h2⟩ | ⟨hu, h⟩
   · rw [h]; exact unqPiece_plain c h1
   · rw [h]; exact unqPiece_esc d c h2
+  · rw [h, escapeUnprintable]
+    split
+    · rename_i hn; exact unqPiece_x c hn h0
+    · exact unqPiece_u c (unprintable_lt c hu) h0
 
-theorem scanOK_escChar (c : Char) (hp : checkProhibited c true = none) :
-    scanOK '\'' (escChar c) = true := by
-  rcases escChar_cases c with ⟨h, h1, h2⟩ | ⟨d, h, h1, _⟩
-  · rw [h]; simp [scanOK, h1, h2, hp]
+theorem scanOK_escChar (c : Char) (h0 : c.toNat ≠ 0) : scanOK '\'' (escChar c) = true := by
+  rcases escChar_cases c with ⟨h, h1, h2, h3⟩ | ⟨d, h, h1, _⟩ | ⟨_, h⟩
+  · rw [h]
+    have hp := checkProhibited_none c true h0 (not_unprintable_not_bidi c h3)
+    simp [scanOK, h1, h2, hp]
   · rw [h]; simp [scanOK, h1]
+  · rw [h, escapeUnprintable]
+    split
+    · exact scanOK_x '\'' (Or.inl rfl) _
+    · exact scanOK_u '\'' (Or.inl rfl) _
 
 theorem lexOne_quote (U : UClass) (cs : List Char) :
     lexOne U ('\'' :: cs) = lexString false false '\'' cs := by
@@ -103,10 +127,10 @@ theorem lexString_pieces (q : Char) (hq : q ≠ '\\') (f : Char → List Char) (
   simp [lexString, scanStr_of_scanOK q hq _ rest (scanOK_flatMap q f s hscan), unqStr_flatMap f s hunq]
 
 theorem quoteLiteral_lex (U : UClass) (s rest : List Char)
-    (h : ∀ c ∈ s, checkProhibited c true = none) :
+    (h : ∀ c ∈ s, c.toNat ≠ 0) :
     lexOne U (quoteLiteral s ++ rest) = .ok (⟨.str, .str s⟩, rest) := by
   have := lexString_pieces '\'' (by decide) escChar s rest
-    (fun c hc => scanOK_escChar c (h c hc)) (fun c _ => unqPiece_escChar c)
+    (fun c hc => scanOK_escChar c (h c hc)) (fun c hc => unqPiece_escChar c (h c hc))
   simp only [quoteLiteral, escapeString_eq, List.cons_append, List.append_assoc, lexOne_quote]
   simpa using this
 
